@@ -12,7 +12,8 @@ request : `c20 <repl 0|1> <data> <op> <op> …`
   fail  : `-` (no fault) | `k` (k-th fault point raises) | `all` (no fault, then every k in turn;
           the history continues from the run without fault)
 answer : one segment per op (space separated).  A run is `status!ticks!trace!data#noisy#sparse`;
-         for `all` the runs are joined with `%` (first the run without fault).
+         for `all` the runs are joined with `%` (first the run without fault; the fault runs print
+         only the label of the failing call in the trace field).
 -/
 open FDA.Proto FDA.Sim
 
@@ -85,6 +86,11 @@ def showRun (r : Except Err Unit × St) : String :=
   (match r.1 with | .ok _ => "ok" | .error e => showErr e) ++ "!" ++ toString r.2.sc.tick ++ "!" ++
     ",".intercalate r.2.sc.trace.reverse ++ "!" ++ showSim r.2.sim
 
+/-- a fault run: only the label of the call that failed instead of the whole trace -/
+def showRunShort (r : Except Err Unit × St) : String :=
+  (match r.1 with | .ok _ => "ok" | .error e => showErr e) ++ "!" ++ toString r.2.sc.tick ++ "!" ++
+    r.2.sc.trace.headD "-" ++ "!" ++ showSim r.2.sim
+
 /-- all runs of one op; returns the answer segment and the state the history continues from -/
 def runOp (x : M Unit) (sim : Sim) : Fail → String × Sim
   | .none => let r := run x sim none; (showRun r, r.2.sim)
@@ -92,7 +98,7 @@ def runOp (x : M Unit) (sim : Sim) : Fail → String × Sim
   | .all =>
     let r := run x sim none
     let n := r.2.sc.tick
-    ("%".intercalate (showRun r :: (List.range n).map fun k => showRun (run x sim (some k))), r.2.sim)
+    ("%".intercalate (showRun r :: (List.range n).map fun k => showRunShort (run x sim (some k))), r.2.sim)
 
 def parseOp? (repl : Bool) (s : String) : Option (M Unit × Fail) :=
   match s.splitOn "~" with
